@@ -906,6 +906,679 @@ def coq_region(name, rec, extra=()):
     return "\n".join(lines)
 
 
+# ------------------------------------------------------------------------------------------------
+# work split by thread number: integer expressions -> expression trees -> Gallina
+#
+# Expression trees (tuples):  ("lit", n) | ("in", key) input of the routine (opaque call / parameter /
+# SHARK_NUM_THREADS) | ("idx", name) loop variable or SHARK_THREAD_NUM | ("var", name, id) another translated local
+# | (op, a, b) with op in add sub mul div mod min max | ("ite", (cmp, a, b), x, y), cmp in lt le gt ge eq ne.
+# Integral casts are transparent (values are assumed to fit: the sources cast the same values to int).
+# Iterators are translated as offsets into their container: `c.begin()` = 0, `it + n`, `it - n`.
+
+NUM_THREADS_KEY = "SHARK_NUM_THREADS"
+THREAD_NUM_IDX = "SHARK_THREAD_NUM"
+INT_TYPE = re.compile(r"^(const )?(std::)?(size_t|int|unsigned|long|unsigned long|unsigned int|std::size_t|size_type)\b")
+BINOPS = {"+": "add", "-": "sub", "*": "mul", "/": "div", "%": "mod"}
+CMPOPS = {"<": "lt", "<=": "le", ">": "gt", ">=": "ge", "==": "eq", "!=": "ne"}
+
+# slice sites: arrays indexed by `something * threads + SHARK_THREAD_NUM`; which locals delimit the cells of one
+# (outer index, thread) and the cells merged afterwards is hand-kept (the expressions themselves are read from the AST)
+SLICE_SITES = [
+    {"class": "SimpleNearestNeighbors", "function": "getNeighbors", "container": "heaps",
+     "slice": ("heapStart", "heapEnd"), "outer": "p", "merge": ("heapStart", "heapEnd")},
+]
+
+
+class Untranslatable(Exception):
+    pass
+
+
+class SplitFn:
+    """integer/iterator locals of one instantiated function as expression trees"""
+    def __init__(self, fn, decl_index):
+        self.fn = fn; self.decl_index = decl_index
+        self.defs = {}        # VarDecl id -> dict(name, tree, line, text)
+        self.order = []       # ids in declaration order
+        self.idxvars = {}     # VarDecl id -> dict(name, lo(tree), hi(tree or None), cmp)
+        self.inputs = []      # keys in order of first occurrence
+        self.param_env = {}   # ParmVarDecl id -> tree (while following an own-method call)
+        self.failed = {}      # VarDecl id -> reason
+        self.containers = {}  # iterator-typed local id -> container name
+        self.caps = {}        # container name -> tree of its size at construction
+        self._scan()
+
+    def input(self, key):
+        key = re.sub(r"\s+", "", key)
+        if key not in self.inputs:
+            self.inputs.append(key)
+        return ("in", key)
+
+    def _omp_macro(self, n):
+        """SHARK_NUM_THREADS / SHARK_THREAD_NUM after expansion: omp_in_parallel() ? a : b"""
+        ks = kids(n)
+        names = [m.get("referencedDecl", {}).get("name") for m in walk(n) if m.get("kind") == "DeclRefExpr"]
+        if "omp_in_parallel" not in names:
+            return None
+        if "omp_get_thread_num" in names:
+            return ("idx", THREAD_NUM_IDX)
+        if "omp_get_num_threads" in names and "omp_get_max_threads" in names:
+            return self.input(NUM_THREADS_KEY)
+        return None
+
+    def tr(self, n):
+        n0 = n
+        while n.get("kind") in TRANSPARENT and kids(n):
+            n = kids(n)[0]
+        k = n.get("kind"); ks = kids(n)
+        if k == "IntegerLiteral":
+            return ("lit", int(n.get("value")))
+        if k == "ConditionalOperator":
+            m = self._omp_macro(n)
+            if m is not None:
+                return m
+            c = strip(ks[0])
+            if c.get("kind") == "BinaryOperator" and c.get("opcode") in CMPOPS:
+                a, b = kids(c)
+                return ("ite", (CMPOPS[c["opcode"]], self.tr(a), self.tr(b)), self.tr(ks[1]), self.tr(ks[2]))
+            raise Untranslatable("condition `%s`" % node_text(c))
+        if k == "DeclRefExpr":
+            rd = n.get("referencedDecl", {}); i = rd.get("id")
+            if i in self.param_env:
+                return self.param_env[i]
+            if i in self.idxvars:
+                return ("idx", self.idxvars[i]["name"])
+            if i in self.defs:
+                return ("var", self.defs[i]["name"], i)
+            if i in self.failed:
+                raise Untranslatable("uses %s (%s)" % (rd.get("name"), self.failed[i]))
+            if rd.get("kind") == "ParmVarDecl" and INT_TYPE.match(qt(n)):
+                return self.input(rd.get("name"))
+            raise Untranslatable("reference to `%s`" % rd.get("name"))
+        if k == "BinaryOperator" and n.get("opcode") in BINOPS:
+            return (BINOPS[n["opcode"]], self.tr(ks[0]), self.tr(ks[1]))
+        if k == "CallExpr":
+            name = strip(ks[0]).get("referencedDecl", {}).get("name", "")
+            if name in ("min", "max") and len(ks) == 3:
+                return (name, self.tr(ks[1]), self.tr(ks[2]))
+            if INT_TYPE.match(qt(n)) and not self._mentions_locals(ks[1:]):
+                return self.input(node_text(n))
+            raise Untranslatable("call `%s`" % node_text(n))
+        if k == "CXXMemberCallExpr":
+            me = ks[0]
+            if me.get("name") == "begin" and len(ks) == 1:
+                return ("lit", 0)                       # offset 0 of its container (recorded by the caller)
+            if INT_TYPE.match(qt(n)) and not self._mentions_locals(ks):
+                return self.input(node_text(n))
+            raise Untranslatable("member call `%s`" % node_text(n))
+        if k == "CXXOperatorCallExpr":
+            name = strip(ks[0]).get("referencedDecl", {}).get("name", "")
+            if name in ("operator+", "operator-") and len(ks) == 3:
+                return ("add" if name == "operator+" else "sub", self.tr(ks[1]), self.tr(ks[2]))
+            raise Untranslatable("operator call `%s`" % node_text(n))
+        if k == "CXXConstructExpr" and len(ks) == 1:
+            return self.tr(ks[0])
+        raise Untranslatable("%s `%s`" % (k, node_text(n0)))
+
+    def _mentions_locals(self, nodes):
+        for x in nodes:
+            for m in walk(x):
+                if m.get("kind") == "DeclRefExpr":
+                    i = m.get("referencedDecl", {}).get("id")
+                    if i in self.defs or i in self.idxvars or i in self.failed or i in self.param_env:
+                        return True
+        return False
+
+    def _container_of(self, n):
+        for m in walk(n):
+            if m.get("kind") == "CXXMemberCallExpr" and kids(m) and kids(m)[0].get("name") == "begin":
+                for r in walk(m):
+                    if r.get("kind") == "DeclRefExpr" and r.get("referencedDecl", {}).get("kind") == "VarDecl":
+                        return r["referencedDecl"].get("name")
+            if m.get("kind") == "DeclRefExpr" and m.get("referencedDecl", {}).get("id") in self.containers:
+                return self.containers[m["referencedDecl"]["id"]]
+        return None
+
+    def _scan(self):
+        seen = set()
+        loops = {}
+        for m in walk(self.fn):
+            if m.get("kind") == "ForStmt":
+                ks = kids(m)
+                for d in walk(ks[0]) if ks else []:
+                    if d.get("kind") == "VarDecl":
+                        loops[d.get("id")] = m
+        for m in walk(self.fn):
+            if m.get("kind") != "VarDecl" or m.get("id") in seen:
+                continue
+            seen.add(m.get("id"))
+            t = qt(m); ks = kids(m)
+            is_int = bool(INT_TYPE.match(t)); is_it = "iterator" in t
+            if not ks:
+                continue
+            if is_int and m.get("id") in loops:
+                f = loops[m["id"]]; fk = kids(f)
+                cond = strip(fk[2]) if len(fk) > 2 else {}
+                try:
+                    lo = self.tr(ks[0])
+                    hi = None; cmp_ = None
+                    if cond.get("kind") == "BinaryOperator" and cond.get("opcode") in ("<", "!="):
+                        self.idxvars[m["id"]] = {"name": m.get("name")}       # so that the condition may mention it
+                        hi = self.tr(kids(cond)[1]); cmp_ = cond["opcode"]
+                    self.idxvars[m["id"]] = {"name": m.get("name"), "lo": lo, "hi": hi, "cmp": cmp_, "loop": f,
+                                             "line": (m.get("_b") or (0, 0))[1]}
+                except Untranslatable as ex:
+                    self.idxvars.pop(m["id"], None)
+                    self.failed[m["id"]] = str(ex)
+                continue
+            if is_it and m.get("id") in loops:
+                self.failed[m["id"]] = "iterator loop variable"; continue
+            if not (is_int or is_it):
+                # capacity of containers constructed with a size: std::vector<T> v(n, ...)
+                if "vector<" in t:
+                    c = strip(ks[0])
+                    if c.get("kind") == "CXXConstructExpr" and kids(c) and INT_TYPE.match(qt(strip(kids(c)[0])) or "x"):
+                        try:
+                            self.caps[m.get("name")] = {"tree": self.tr(kids(c)[0]), "line": (m.get("_b") or (0, 0))[1], "text": node_text(m)}
+                        except Untranslatable:
+                            pass
+                continue
+            try:
+                tree = self.tr(ks[0])
+                self.defs[m["id"]] = {"name": m.get("name"), "tree": tree, "line": (m.get("_b") or (0, 0))[1],
+                                      "text": node_text(m), "iterator": is_it}
+                self.order.append(m["id"])
+                if is_it:
+                    self.containers[m["id"]] = self._container_of(ks[0])
+            except Untranslatable as ex:
+                self.failed[m["id"]] = str(ex)
+
+
+def tree_deps(tree, out=None):
+    """(set of var ids, set of idx names, set of input keys) mentioned directly"""
+    out = out if out is not None else (set(), set(), set())
+    if tree[0] == "var":
+        out[0].add(tree[2])
+    elif tree[0] == "idx":
+        out[1].add(tree[1])
+    elif tree[0] == "in":
+        out[2].add(tree[1])
+    elif tree[0] == "ite":
+        tree_deps(tree[1][1], out); tree_deps(tree[1][2], out); tree_deps(tree[2], out); tree_deps(tree[3], out)
+    elif tree[0] != "lit":
+        tree_deps(tree[1], out); tree_deps(tree[2], out)
+    return out
+
+
+def closure(sf, trees):
+    """ids of the locals the trees depend on (declaration order), all idx names, all inputs"""
+    ids, idx, ins = set(), set(), set()
+    todo = list(trees)
+    while todo:
+        t = todo.pop()
+        v, i, n = tree_deps(t)
+        idx |= i; ins |= n
+        for x in v:
+            if x not in ids:
+                ids.add(x); todo.append(sf.defs[x]["tree"])
+    return [i for i in sf.order if i in ids], idx, ins
+
+
+def var_idx_deps(sf, vid, memo):
+    if vid not in memo:
+        memo[vid] = set()
+        v, i, _ = tree_deps(sf.defs[vid]["tree"])
+        s = set(i)
+        for x in v:
+            s |= var_idx_deps(sf, x, memo)
+        memo[vid] = s
+    return memo[vid]
+
+
+def tree_idx_deps(sf, tree, memo):
+    v, i, _ = tree_deps(tree)
+    s = set(i)
+    for x in v:
+        s |= var_idx_deps(sf, x, memo)
+    return s
+
+
+def _site_base(sf, fn, directive):
+    b = directive.get("_b") or (None, None, None, None)
+    f = b[0] or ""
+    cls = class_of(fn)
+    return {"file": f.split("/include/", 1)[1] if "/include/" in f else f, "line": b[1],
+            "function": (cls + "::" if cls else "") + fn.get("name", "?")}
+
+
+def _find_range_loops(sf, body, pv_name, memo, depth=0):
+    """sequential loops `for(i = lo; i != hi; ++i)` under `body` whose bounds depend on the parallel loop variable;
+    own methods called on `this` are followed with their integer parameters bound to the arguments"""
+    found = []
+    for m in walk(body):
+        if m.get("kind") == "ForStmt":
+            ks = kids(m)
+            for d in walk(ks[0]) if ks else []:
+                if d.get("kind") == "VarDecl":
+                    iv = sf.idxvars.get(d.get("id"))
+                    if iv is None and depth > 0:
+                        # loop of a followed method: translate now under the parameter binding
+                        try:
+                            cond = strip(ks[2])
+                            if cond.get("kind") == "BinaryOperator" and cond.get("opcode") in ("<", "!="):
+                                sf.idxvars[d["id"]] = {"name": d.get("name")}
+                                iv = {"name": d.get("name"), "lo": sf.tr(kids(d)[0]), "hi": sf.tr(kids(cond)[1]), "cmp": cond["opcode"],
+                                      "loop": m, "line": (d.get("_b") or (0, 0))[1]}
+                                sf.idxvars.pop(d["id"], None)
+                        except (Untranslatable, IndexError):
+                            sf.idxvars.pop(d["id"], None); iv = None
+                    if iv and iv.get("hi") is not None:
+                        if pv_name in tree_idx_deps(sf, iv["lo"], memo) and pv_name in tree_idx_deps(sf, iv["hi"], memo):
+                            found.append(iv)
+        if m.get("kind") == "CXXMemberCallExpr" and depth < 2:
+            ks = kids(m); me = ks[0]
+            obj = strip(kids(me)[0]) if kids(me) else None
+            if obj is not None and obj.get("kind") == "CXXThisExpr":
+                callee = sf.decl_index.get(me.get("referencedMemberDecl"))
+                cbody = [c for c in kids(callee) if c.get("kind") == "CompoundStmt"] if callee else []
+                if cbody:
+                    params = [p for p in kids(callee) if p.get("kind") == "ParmVarDecl"]
+                    saved = dict(sf.param_env)
+                    for p, a in zip(params, ks[1:]):
+                        if INT_TYPE.match(qt(p)):
+                            try:
+                                sf.param_env[p.get("id")] = sf.tr(a)
+                            except Untranslatable:
+                                pass
+                    found += _find_range_loops(sf, cbody[0], pv_name, memo, depth + 1)
+                    sf.param_env = saved
+    return found
+
+
+def _indexed_container(loop, ivname):
+    """`X.batch(i)` in the loop body -> text of X"""
+    ks = kids(loop)
+    for m in walk(ks[-1]):
+        if m.get("kind") == "CXXMemberCallExpr" and kids(m) and kids(m)[0].get("name") == "batch":
+            args = kids(m)[1:]
+            if any(r.get("kind") == "DeclRefExpr" and r.get("referencedDecl", {}).get("name") == ivname for a in args for r in walk(a)):
+                obj = kids(kids(m)[0])
+                if obj:
+                    return re.sub(r"\s+", "", node_text(strip(obj[0]))).replace("this->", "")
+    return None
+
+
+def split_sites_of(docs):
+    """range sites and slice sites of the instantiated functions of one TU"""
+    sites = []; problems = []
+    decl_index = {}
+    for d in docs:
+        for n in walk(d):
+            if n.get("kind") in ("CXXMethodDecl", "FunctionDecl") and any(c.get("kind") == "CompoundStmt" for c in kids(n)):
+                decl_index[n.get("id")] = n
+    done = set()
+    for fid, fn in decl_index.items():
+        dirs = [m for m in walk(fn) if m.get("kind") == "OMPParallelForDirective"]
+        if not dirs:
+            continue
+        if any(m.get("kind") in DEPENDENT or "<dependent type>" in qt(m) for m in walk(fn)):
+            continue
+        names = set(m.get("referencedDecl", {}).get("name") for m in walk(fn) if m.get("kind") == "DeclRefExpr")
+        if not names & {"omp_get_thread_num", "omp_get_num_threads", "omp_get_max_threads"}:
+            continue
+        sf = SplitFn(fn, decl_index)
+        memo = {}
+        cls = class_of(fn)
+        table = [s for s in SLICE_SITES if s["class"] == cls and s["function"] == fn.get("name")]
+        regions = []
+        for dnode in dirs:
+            loops = [m for m in walk(dnode) if m.get("kind") == "ForStmt"]
+            if not loops:
+                continue
+            pv = None
+            for d in walk(kids(loops[0])[0]):
+                if d.get("kind") == "VarDecl":
+                    pv = sf.idxvars.get(d.get("id"))
+            regions.append((dnode, loops[0], pv))
+        for dnode, loop, pv in regions:
+            base = _site_base(sf, fn, dnode)
+            key = (base["file"], base["line"])
+            if key in done:
+                continue
+            if pv is None or pv.get("hi") is None:
+                continue
+            rl = _find_range_loops(sf, kids(loop)[-1], pv["name"], memo)
+            if not rl:
+                continue
+            done.add(key)
+            iv = rl[0]
+            cont = _indexed_container(iv["loop"], iv["name"])
+            total = None
+            if cont:
+                for k in sf.inputs:
+                    if k == cont + ".numberOfBatches()":
+                        total = ("in", k)
+            site = dict(base, kind="range", pv=pv["name"], bound=pv["hi"], pv_lo=pv["lo"], lo=iv["lo"], hi=iv["hi"], inner_cmp=iv["cmp"],
+                        inner_line=iv["line"], container=cont, total=total, sf=sf)
+            if len(rl) > 1:
+                problems.append("%s:%s: %d sequential loops depend on the parallel loop variable; the first is used" % (base["file"], base["line"], len(rl)))
+            if total is None:
+                problems.append("%s:%s %s: cannot tell which index space the ranges must cover (no `X.batch(i)` in the inner loop / no input X.numberOfBatches())" % (base["file"], base["line"], base["function"]))
+            sites.append(site)
+        for tb in table:
+            key = (cls, fn.get("name"), tb["container"])
+            if key in done:
+                continue
+            done.add(key)
+            base = _site_base(sf, fn, regions[0][0]) if regions else {"file": "?", "line": 0, "function": cls + "::" + fn.get("name")}
+            def local(name, loop):
+                ids = [i for i in sf.order if sf.defs[i]["name"] == name and any(m.get("id") == i for m in walk(loop))]
+                return ids[0] if ids else None
+            try:
+                if len(regions) < 2:
+                    raise Untranslatable("expected two parallel regions (fill, merge), found %d" % len(regions))
+                (d1, l1, pv1), (d2, l2, pv2) = regions[0], regions[1]
+                s_lo, s_hi = local(tb["slice"][0], l1), local(tb["slice"][1], l1)
+                m_lo, m_hi = local(tb["merge"][0], l2), local(tb["merge"][1], l2)
+                if None in (s_lo, s_hi, m_lo, m_hi):
+                    raise Untranslatable("locals %s / %s not found or not translatable: %s" % (tb["slice"], tb["merge"], "; ".join(sorted(set(sf.failed.values())))[:300]))
+                outer = [v for v in sf.idxvars.values() if v["name"] == tb["outer"] and any(m is v["loop"] for m in walk(l1))]
+                if not outer or outer[0].get("hi") is None or pv2 is None or pv2.get("hi") is None:
+                    raise Untranslatable("outer index `%s` of the fill region / loop bound of the merge region not found" % tb["outer"])
+                if tb["container"] not in sf.caps:
+                    raise Untranslatable("size of `%s` at construction not found" % tb["container"])
+                for i in (s_lo, s_hi, m_lo, m_hi):
+                    if sf.containers.get(i) != tb["container"]:
+                        raise Untranslatable("%s is not an iterator into %s" % (sf.defs[i]["name"], tb["container"]))
+                sites.append(dict(base, kind="slice", container=tb["container"], cap=sf.caps[tb["container"]]["tree"], cap_text=sf.caps[tb["container"]]["text"],
+                                  outer=outer[0]["name"], outer_bound=outer[0]["hi"], s_lo=s_lo, s_hi=s_hi,
+                                  merge_pv=pv2["name"], merge_bound=pv2["hi"], m_lo=m_lo, m_hi=m_hi, merge_line=(d2.get("_b") or (0, 0))[1], sf=sf))
+            except Untranslatable as ex:
+                problems.append("%s %s: slice site `%s`: %s" % (base["file"], base["function"], tb["container"], ex))
+    return sites, problems
+
+
+# ---- rendering
+
+def coq_ident(s):
+    s = re.sub(r"[^A-Za-z0-9_]", "_", s)
+    return s if re.match(r"[A-Za-z_]", s) else "v" + s
+
+
+def input_name(key, taken):
+    if key == NUM_THREADS_KEY:
+        base = "nt"
+    elif key.endswith(".numberOfBatches()"):
+        base = "nb"
+    else:
+        base = coq_ident(re.sub(r"\(.*\)", "", key).split(".")[-1]) or "x"
+        if base in ("nb", "nt"):
+            base += "_"
+    n = base; i = 1
+    while n in taken:
+        i += 1; n = "%s%d" % (base, i)
+    return n
+
+
+class Render:
+    """Gallina text of the definitions a site needs; every definition takes all inputs of the site, then the index
+    variables it depends on (in the site's index order)"""
+    def __init__(self, sf, prefix, inputs, in_names, idx_order, idx_rename=None):
+        self.sf = sf; self.prefix = prefix; self.inputs = inputs; self.in_names = in_names
+        self.idx_order = idx_order; self.idx_rename = idx_rename or {}
+        self.memo = {}; self.lines = []; self.names = []; self.emitted = {}
+
+    def idx_of_tree(self, tree):
+        d = tree_idx_deps(self.sf, tree, self.memo)
+        return [i for i in self.idx_order if i in d]
+
+    def app(self, name, idxs):
+        return "(%s)" % " ".join([name] + [self.in_names[k] for k in self.inputs] + [self.idx_rename.get(i, coq_ident(i)) for i in idxs]) \
+            if (self.inputs or idxs) else name
+
+    def expr(self, t):
+        k = t[0]
+        if k == "lit":
+            return str(t[1])
+        if k == "in":
+            return self.in_names[t[1]]
+        if k == "idx":
+            return self.idx_rename.get(t[1], coq_ident(t[1]))
+        if k == "var":
+            return self.app(self.emitted[t[2]], self.idx_of_tree(t))
+        if k == "ite":
+            c = {"lt": "%s <? %s", "le": "%s <=? %s", "gt": "%s <? %s", "ge": "%s <=? %s", "eq": "%s =? %s", "ne": "negb (%s =? %s)"}[t[1][0]]
+            a, b = self.expr(t[1][1]), self.expr(t[1][2])
+            if t[1][0] in ("gt", "ge"):
+                a, b = b, a
+            return "(if %s then %s else %s)" % (c % (a, b), self.expr(t[2]), self.expr(t[3]))
+        op = {"add": "%s + %s", "sub": "%s - %s", "mul": "%s * %s", "div": "%s / %s", "mod": "%s mod %s",
+              "min": "Nat.min %s %s", "max": "Nat.max %s %s"}[k]
+        return "(" + op % (self.expr(t[1]), self.expr(t[2])) + ")"
+
+    def define(self, name, tree, comment=""):
+        idxs = self.idx_of_tree(tree)
+        full = self.prefix + coq_ident(name)
+        params = " ".join([self.in_names[k] for k in self.inputs] + [self.idx_rename.get(i, coq_ident(i)) for i in idxs])
+        self.lines.append("Definition %s %s: nat := %s.%s" % (full, ("(%s : nat) " % params) if params else "", self.expr(tree),
+                                                              ("  (* %s *)" % comment.replace("(*", "( *").replace("*)", "* )")) if comment else ""))
+        self.names.append(full)
+        return full, idxs
+
+    def define_locals(self, ids):
+        for i in ids:
+            d = self.sf.defs[i]
+            full, _ = self.define(d["name"], d["tree"], "line %s: %s" % (d["line"], d["text"][:90]))
+            self.emitted[i] = full
+
+
+def side_conditions(sf, trees_with_ctx):
+    """(kind, a, b) for every division (b <> 0) and subtraction (b <= a) in the given trees and the locals they use"""
+    out = []; seen = set()
+    def rec(t):
+        if t[0] in ("lit", "in", "idx"):
+            return
+        if t[0] == "var":
+            if t[2] not in seen:
+                seen.add(t[2]); rec(sf.defs[t[2]]["tree"])
+            return
+        if t[0] == "ite":
+            rec(t[1][1]); rec(t[1][2]); rec(t[2]); rec(t[3]); return
+        rec(t[1]); rec(t[2])
+        if t[0] in ("div", "mod"):
+            out.append(("nonzero", t[2], None))
+        if t[0] == "sub":
+            out.append(("le", t[2], t[1]))
+    for t in trees_with_ctx:
+        rec(t)
+    return out
+
+
+def all_subterms(sf, trees):
+    out = []; seen = set()
+    def rec(t):
+        if t[0] in ("lit", "in", "idx"):
+            return
+        if t[0] == "var":
+            if t[2] not in seen:
+                seen.add(t[2]); rec(sf.defs[t[2]]["tree"]); out.append(t)
+            return
+        if t[0] == "ite":
+            rec(t[1][1]); rec(t[1][2]); rec(t[2]); rec(t[3]); return
+        rec(t[1]); rec(t[2])
+        if t[0] in ("add", "mul"):
+            out.append(t)
+    for t in trees:
+        rec(t)
+    return out
+
+
+def _unique(name, taken):
+    n = name; i = 1
+    while n in taken:
+        i += 1; n = "%s%d" % (name, i)
+    taken.add(n)
+    return n
+
+
+def coq_split(splits):
+    """Gallina for all sites.  Returns dict(defs=text of C20SplitDefs.v body, obligations=[dict(name, site, kind, stmt)],
+    sites=[meta per site], problems=[...])."""
+    out = ["From Coq Require Import List Arith Bool PeanoNat.", "From SharkV Require Import C20SplitModel.", "Import ListNotations.", ""]
+    obligations = []; metas = []; problems = []; hint_names = []
+    range_recs = []; slice_recs = []
+    for k, s in enumerate(splits):
+        sf = s["sf"]; pre = "s%d_" % k
+        meta = {"index": k, "kind": s["kind"], "function": s["function"], "file": s["file"], "line": s["line"], "prefix": pre}
+        if s["kind"] == "range":
+            trees = [s["bound"], s["lo"], s["hi"]] + ([s["total"]] if s["total"] else [])
+            ids, idx, ins = closure(sf, trees)
+            inputs = [x for x in sf.inputs if x in ins]
+            taken = set(); in_names = {x: _unique(input_name(x, ()), taken) for x in inputs}
+            pvn = _unique(coq_ident(s["pv"]), taken)
+            extra_idx = idx - {s["pv"]}
+            if extra_idx or s["total"] is None or s["pv_lo"] != ("lit", 0):
+                problems.append("%s:%s %s: range site not in the supported form (other index variables %s, total %s, first worker %s)" % (
+                    s["file"], s["line"], s["function"], sorted(extra_idx), s["total"], s["pv_lo"]))
+                meta["unsupported"] = True; metas.append(meta); continue
+            R = Render(sf, pre, inputs, in_names, [s["pv"]], {s["pv"]: pvn})
+            out.append("(* ---- site %d (range): %s  %s:%s" % (k, s["function"], s["file"], s["line"]))
+            for x in inputs:
+                out.append("     input %s = %s" % (in_names[x], x))
+            out.append("     worker index %s = parallel loop variable `%s` (0 <= %s < s%d_bound); inner loop line %s: for(i = s%d_lo; i %s s%d_hi; ++i) over %s.batch(i) *)" % (
+                pvn, s["pv"], pvn, k, s["inner_line"], k, s["inner_cmp"], k, s["container"]))
+            R.define_locals(ids)
+            def forced(name, tree, idxs):
+                params = " ".join([in_names[x] for x in inputs] + idxs)
+                R.lines.append("Definition %s%s %s: nat := %s." % (pre, name, ("(%s : nat) " % params) if params else "", R.expr(tree)))
+                R.names.append(pre + name)
+            forced("total", s["total"], []); forced("bound", s["bound"], []); forced("lo", s["lo"], [pvn]); forced("hi", s["hi"], [pvn])
+            out += R.lines
+            args = " ".join("(nth %d x 0)" % i for i in range(len(inputs)))
+            out.append("Definition site_%d : split_site := SplitSite (fun x => %stotal %s) (fun x => %sbound %s) (fun x => %slo %s) (fun x => %shi %s)." % (
+                k, pre, args, pre, args, pre, args, pre, args))
+            out.append("")
+            hint_names += R.names
+            ins_s = " ".join(in_names[x] for x in inputs)
+            pres = ["1 <= %s" % in_names[x] for x in inputs if x == s["total"][1] or x == NUM_THREADS_KEY]
+            hyp = "".join(p + " -> " for p in pres)
+            app = lambda n, idx=False: "(%s%s %s%s)" % (pre, n, ins_s, (" " + pvn) if idx else "")
+            obligations.append({"name": "s%d_tiles" % k, "site": k, "kind": "tiles",
+                                "stmt": "forall %s : nat, %stiles 0 %s %s (%slo %s) (%shi %s)" % (ins_s, hyp, app("total"), app("bound"), pre, ins_s, pre, ins_s)})
+            sc = side_conditions(sf, [s["bound"], s["lo"], s["hi"], s["total"]])
+            conj = []
+            for kind, a, b in sc:
+                conj.append("%s <> 0" % R.expr(a) if kind == "nonzero" else "%s <= %s" % (R.expr(a), R.expr(b)))
+            conj = list(dict.fromkeys(conj))
+            if conj:
+                obligations.append({"name": "s%d_safe" % k, "site": k, "kind": "safe",
+                                    "stmt": "forall %s %s : nat, %s%s < %s ->\n    %s" % (ins_s, pvn, hyp, pvn, app("bound"), " /\\\n    ".join(conj))})
+            subs = all_subterms(sf, [s["bound"], s["lo"], s["hi"]])
+            bound_sum = " + ".join(in_names[x] for x in inputs)
+            conj2 = list(dict.fromkeys("%s <= %s" % (R.expr(tm), bound_sum) for tm in subs))
+            if conj2:
+                obligations.append({"name": "s%d_nowrap" % k, "site": k, "kind": "nowrap",
+                                    "stmt": "forall %s %s : nat, %s%s < %s ->\n    %s" % (ins_s, pvn, hyp, pvn, app("bound"), " /\\\n    ".join(conj2))})
+            meta.update({"inputs": inputs, "input_names": [in_names[x] for x in inputs], "total_input": s["total"][1], "worker": pvn,
+                         "preconditions": pres, "side_conditions": conj, "nowrap_bound": bound_sum,
+                         "source": {d["name"]: d["text"] for d in (sf.defs[i] for i in ids)}})
+            range_recs.append(k)
+        else:
+            t1 = [s["cap"], s["outer_bound"], ("var", "", s["s_lo"]), ("var", "", s["s_hi"])]
+            t2 = [s["merge_bound"], ("var", "", s["m_lo"]), ("var", "", s["m_hi"])]
+            ids1, idx1, ins1 = closure(sf, t1); ids2, idx2, ins2 = closure(sf, t2)
+            inputs = [x for x in sf.inputs if x in ins1 | ins2]
+            taken = set(); in_names = {x: _unique(input_name(x, ()), taken) for x in inputs}
+            pn = _unique(coq_ident(s["outer"]), taken); tn = _unique("t", taken)
+            if idx1 - {s["outer"], THREAD_NUM_IDX} or idx2 - {s["merge_pv"]} or NUM_THREADS_KEY not in inputs:
+                problems.append("%s:%s %s: slice site not in the supported form (index variables %s / %s, inputs %s)" % (
+                    s["file"], s["line"], s["function"], sorted(idx1), sorted(idx2), inputs))
+                meta["unsupported"] = True; metas.append(meta); continue
+            R1 = Render(sf, pre, inputs, in_names, [s["outer"], THREAD_NUM_IDX], {s["outer"]: pn, THREAD_NUM_IDX: tn})
+            R2 = Render(sf, pre + "m_", inputs, in_names, [s["merge_pv"]], {s["merge_pv"]: pn})
+            out.append("(* ---- site %d (slices of `%s`): %s  %s:%s (fill) / :%s (merge)" % (k, s["container"], s["function"], s["file"], s["line"], s["merge_line"]))
+            for x in inputs:
+                out.append("     input %s = %s" % (in_names[x], x))
+            out.append("     %s = outer index `%s`, %s = SHARK_THREAD_NUM (< SHARK_NUM_THREADS); allocation: %s *)" % (pn, s["outer"], tn, s["cap_text"][:110]))
+            R1.define_locals(ids1); R2.define_locals(ids2)
+            ins_s = " ".join(in_names[x] for x in inputs)
+            def forced(R, name, tree, idxs):
+                params = " ".join([in_names[x] for x in inputs] + idxs)
+                R.lines.append("Definition %s%s %s: nat := %s." % (R.prefix, name, ("(%s : nat) " % params) if params else "", R.expr(tree)))
+                R.names.append(R.prefix + name)
+            forced(R1, "cap", s["cap"], []); forced(R1, "outer", s["outer_bound"], [])
+            forced(R1, "lo", ("var", "", s["s_lo"]), [pn, tn]); forced(R1, "hi", ("var", "", s["s_hi"]), [pn, tn])
+            forced(R2, "outer", s["merge_bound"], []); forced(R2, "lo", ("var", "", s["m_lo"]), [pn]); forced(R2, "hi", ("var", "", s["m_hi"]), [pn])
+            out += R1.lines + R2.lines
+            args = " ".join("(nth %d x 0)" % i for i in range(len(inputs)))
+            nt_arg = "(nth %d x 0)" % inputs.index(NUM_THREADS_KEY)
+            out.append("Definition slice_%d : slice_site := SliceSite (fun x => %scap %s) (fun x => %souter %s) (fun x => %s)\n  (fun x => %slo %s) (fun x => %shi %s) (fun x => %sm_lo %s) (fun x => %sm_hi %s)." % (
+                k, pre, args, pre, args, nt_arg, pre, args, pre, args, pre, args, pre, args))
+            out.append("")
+            hint_names += R1.names + R2.names
+            ntn = in_names[NUM_THREADS_KEY]
+            hyp = "1 <= %s -> " % ntn
+            obligations.append({"name": "s%d_slices" % k, "site": k, "kind": "slices",
+                                "stmt": "forall %s : nat, %s(%sm_outer %s) = (%souter %s) /\\\n    tiles2 (%scap %s) (%souter %s) %s (%sm_lo %s) (%sm_hi %s) (%slo %s) (%shi %s)" % (
+                                    ins_s, hyp, pre, ins_s, pre, ins_s, pre, ins_s, pre, ins_s, ntn, pre, ins_s, pre, ins_s, pre, ins_s, pre, ins_s)})
+            sc1 = side_conditions(sf, t1); sc2 = side_conditions(sf, t2)
+            conj = ["%s <> 0" % R1.expr(a) if kind == "nonzero" else "%s <= %s" % (R1.expr(a), R1.expr(b)) for kind, a, b in sc1]
+            conjm = ["%s <> 0" % R2.expr(a) if kind == "nonzero" else "%s <= %s" % (R2.expr(a), R2.expr(b)) for kind, a, b in sc2]
+            conj = list(dict.fromkeys(conj + conjm))
+            if conj:
+                obligations.append({"name": "s%d_safe" % k, "site": k, "kind": "safe",
+                                    "stmt": "forall %s %s %s : nat, %s%s < (%souter %s) -> %s < %s ->\n    %s" % (ins_s, pn, tn, hyp, pn, pre, ins_s, tn, ntn, " /\\\n    ".join(conj))})
+            prod = " * ".join("(%s + 1)" % in_names[x] for x in inputs)
+            subs = [R1.expr(tm) for tm in all_subterms(sf, t1)] + [R2.expr(tm) for tm in all_subterms(sf, t2)]
+            conj2 = list(dict.fromkeys("%s <= %s" % (e, prod) for e in subs))
+            if conj2:
+                obligations.append({"name": "s%d_nowrap" % k, "site": k, "kind": "nowrap",
+                                    "stmt": "forall %s %s %s : nat, %s%s < (%souter %s) -> %s < %s ->\n    %s" % (ins_s, pn, tn, hyp, pn, pre, ins_s, tn, ntn, " /\\\n    ".join(conj2))})
+            meta.update({"inputs": inputs, "input_names": [in_names[x] for x in inputs], "preconditions": ["1 <= " + ntn], "side_conditions": conj,
+                         "nowrap_bound": prod, "container": s["container"], "table_entry": [tb for tb in SLICE_SITES if tb["container"] == s["container"]][0],
+                         "source": {d["name"] + "@%s" % d["line"]: d["text"] for d in (sf.defs[i] for i in ids1 + ids2)}})
+            slice_recs.append(k)
+        metas.append(meta)
+    out.append("Definition split_sites : list (nat * split_site) := [%s]." % "; ".join("(%d, site_%d)" % (k, k) for k in range_recs))
+    out.append("Definition slice_sites : list (nat * slice_site) := [%s]." % "; ".join("(%d, slice_%d)" % (k, k) for k in slice_recs))
+    out.append("")
+    if hint_names:
+        out.append("#[export] Hint Unfold %s : c20split." % " ".join(hint_names))
+    return {"defs": "\n".join(out) + "\n", "obligations": obligations, "sites": metas, "problems": problems}
+
+
+# ---- C semantics (64-bit unsigned), used to look for a concrete failing input when an obligation fails
+
+class Trap(Exception):
+    pass
+
+
+def eval_tree(sf, t, env, flags=None):
+    """env: dict input key / idx name -> int.  flags: list collecting 'wrap' events"""
+    M = 1 << 64
+    k = t[0]
+    if k == "lit":
+        return t[1]
+    if k == "in" or k == "idx":
+        return env[t[1]]
+    if k == "var":
+        return eval_tree(sf, sf.defs[t[2]]["tree"], env, flags)
+    if k == "ite":
+        a, b = eval_tree(sf, t[1][1], env, flags), eval_tree(sf, t[1][2], env, flags)
+        c = {"lt": a < b, "le": a <= b, "gt": a > b, "ge": a >= b, "eq": a == b, "ne": a != b}[t[1][0]]
+        return eval_tree(sf, t[2] if c else t[3], env, flags)
+    a, b = eval_tree(sf, t[1], env, flags), eval_tree(sf, t[2], env, flags)
+    if k in ("div", "mod"):
+        if b == 0:
+            raise Trap("division by zero")
+        return a // b if k == "div" else a % b
+    r = {"add": a + b, "sub": a - b, "mul": a * b, "min": min(a, b), "max": max(a, b)}[k]
+    if not 0 <= r < M:
+        if flags is not None:
+            flags.append("unsigned wrap-around in %s" % k)
+        r %= M
+    return r
+
+
 def translate(outdir, jobs=4):
     """returns dict(regions=[...], coverage=..., errors=[...]); writes nothing into coq/ itself"""
     from concurrent.futures import ThreadPoolExecutor
@@ -933,10 +1606,18 @@ def translate(outdir, jobs=4):
         for d in docs:
             annotate(d, lt)
         per_tu.setdefault(name, []).extend(docs)
+    splits = []; split_problems = []
     for name, docs in per_tu.items():
         if name == "dropout":
             dropout = summarise_methods(docs, "DropoutLayer", ("eval",))
             continue
+        try:
+            ss, sp = split_sites_of(docs)
+            have = set((s["file"], s["line"], s["kind"]) for s in splits)
+            splits += [s for s in ss if (s["file"], s["line"], s["kind"]) not in have]
+            split_problems += sp
+        except Exception as ex:      # translator bug on an unforeseen construct: say so, do not guess
+            split_problems.append("TU %s: work-split extraction failed: %r" % (name, ex))
         methods = build_method_index(docs)
         regs, pats = find_regions(docs, name, methods)
         for p in pats:
@@ -966,7 +1647,19 @@ def translate(outdir, jobs=4):
                 textual.setdefault(a, []).append(ln)
                 if not any(r["file"] == a and r["line"] == ln for r in uniq):
                     missing.append("%s:%d" % (a, ln))
-    return {"regions": uniq, "missing": missing, "textual": textual, "errors": errors, "dropout": dropout}
+    splits.sort(key=lambda s: (s["kind"], s["file"], s["line"]))
+    # every textual use of SHARK_NUM_THREADS / SHARK_THREAD_NUM in the anchored files must belong to a translated site
+    thread_uses = {}
+    for a in anchored:
+        try:
+            ls = open(os.path.join(vlib.REPO, "include", a), errors="replace").read().split("\n")
+        except OSError:
+            continue
+        for ln, l in enumerate(ls, 1):
+            if re.search(r"\bSHARK_(NUM_THREADS|THREAD_NUM)\b", l) and not l.lstrip().startswith("//") and not l.lstrip().startswith("#"):
+                thread_uses.setdefault(a, []).append(ln)
+    return {"regions": uniq, "missing": missing, "textual": textual, "errors": errors, "dropout": dropout,
+            "splits": splits, "split_problems": split_problems, "thread_uses": thread_uses}
 
 
 def summarise_methods(docs, cls, names):
